@@ -417,10 +417,11 @@ def unitFactors (us : Units) (selfU otherU : Option (List String)) : M (List Rat
     | none => .error .unit
   | _, _ => .error .unit
 
-/-- `FieldType.prepend_empty` / `append_empty` (`front = true` is prepend) of `n` rows -/
+/-- `FieldType.prepend_empty` / `append_empty` (`front = true` is prepend) of `n` rows (after the
+`fix:` 352fb79 there is no shortcut for `n = 0`: the array is re-created and the memo consulted
+also when nothing is added, which keeps shared objects shared) -/
 def padField (front : Bool) (n : Nat) : Field → St → M (Field × St)
   | f, s =>
-    if n == 0 then .ok (f, s) else
     match f with
     | .leaf nm k o no u l =>
       let pos := if front then 0 else no
@@ -505,9 +506,10 @@ def appendLoop (p : String → Bool) (n : Nat) : List Field → St → M (List F
       | .error e => .error e
       | .ok (fs', s'') => .ok (f' :: fs', s'')
 
-/-- membership test of `only_in_self` -/
-def onlyInSelf (selfKeys otherKeys : List String) (otherLen : Nat) (n : String) : Bool :=
-  (selfKeys.contains n && !otherKeys.contains n) || (otherLen == 0 && otherKeys.contains n)
+/-- membership test of `only_in_self` (`otherLen` is no longer looked at — `fix:` 352fb79 — and is
+kept as an argument only so that callers read like the source) -/
+def onlyInSelf (selfKeys otherKeys : List String) (_otherLen : Nat) (n : String) : Bool :=
+  selfKeys.contains n && !otherKeys.contains n
 
 /-- the tail of `Collection._extend` once the loop over `other` is done -/
 def extendFinish (selfKeys otherKeys : List String) (otherLen : Nat) (r : M (List Field × St)) : M (List Field × St) :=
